@@ -11,6 +11,7 @@ import (
 	"fmt"
 	"io"
 	"math"
+	"math/big"
 	"reflect"
 	"strconv"
 	"strings"
@@ -423,6 +424,48 @@ func readEnv(b []byte) (env, error) {
 	return e, nil
 }
 
+// valEq compares two independently parsed JSON values; numbers are compared by their exact value
+// (1.0 == 1, 1E3 == 1e3 == 1000: the property is about values, not their spelling), nothing is rounded.
+func valEq(a, b any) bool {
+	switch x := a.(type) {
+	case json.Number:
+		y, ok := b.(json.Number)
+		if !ok {
+			return false
+		}
+		if x == y {
+			return true
+		}
+		rx, okx := new(big.Rat).SetString(string(x))
+		ry, oky := new(big.Rat).SetString(string(y))
+		return okx && oky && rx.Cmp(ry) == 0
+	case []any:
+		y, ok := b.([]any)
+		if !ok || len(x) != len(y) || (x == nil) != (y == nil) {
+			return false
+		}
+		for i := range x {
+			if !valEq(x[i], y[i]) {
+				return false
+			}
+		}
+		return true
+	case map[string]any:
+		y, ok := b.(map[string]any)
+		if !ok || len(x) != len(y) {
+			return false
+		}
+		for k, v := range x {
+			w, ok := y[k]
+			if !ok || !valEq(v, w) {
+				return false
+			}
+		}
+		return true
+	}
+	return reflect.DeepEqual(a, b)
+}
+
 // diffEnv names the first field in which got differs from want ("" if none).
 func diffEnv(want, got env) string {
 	switch {
@@ -440,11 +483,11 @@ func diffEnv(want, got env) string {
 		return fmt.Sprintf("method: want %q got %q", want.Method, got.Method)
 	case want.HasParams != got.HasParams:
 		return fmt.Sprintf("params presence: want %v got %v", want.HasParams, got.HasParams)
-	case !reflect.DeepEqual(want.Params, got.Params):
+	case !valEq(want.Params, got.Params):
 		return fmt.Sprintf("params: want %v got %v", want.Params, got.Params)
 	case want.HasResult != got.HasResult:
 		return fmt.Sprintf("result presence: want %v got %v", want.HasResult, got.HasResult)
-	case !reflect.DeepEqual(want.Result, got.Result):
+	case !valEq(want.Result, got.Result):
 		return fmt.Sprintf("result: want %v got %v", want.Result, got.Result)
 	case want.HasError != got.HasError:
 		return fmt.Sprintf("error presence: want %v got %v", want.HasError, got.HasError)
@@ -454,7 +497,7 @@ func diffEnv(want, got env) string {
 		return fmt.Sprintf("error.message: want %q got %q", want.Message, got.Message)
 	case want.HasData != got.HasData:
 		return fmt.Sprintf("error.data presence: want %v got %v", want.HasData, got.HasData)
-	case !reflect.DeepEqual(want.Data, got.Data):
+	case !valEq(want.Data, got.Data):
 		return fmt.Sprintf("error.data: want %v got %v", want.Data, got.Data)
 	}
 	return ""
